@@ -318,14 +318,24 @@ theorem theta_around_closed (x k : Rat) : Theta.scalar "around" [.v (.num x), .v
       Val.num ((((if x * Theta.ratPow 10 k.num.toNat - ((x * Theta.ratPow 10 k.num.toNat).floor : Int) < 1/2 then (x * Theta.ratPow 10 k.num.toNat).floor
         else if x * Theta.ratPow 10 k.num.toNat - ((x * Theta.ratPow 10 k.num.toNat).floor : Int) > 1/2 then (x * Theta.ratPow 10 k.num.toNat).floor + 1
         else (if (x * Theta.ratPow 10 k.num.toNat).floor % 2 == 0 then (x * Theta.ratPow 10 k.num.toNat).floor else (x * Theta.ratPow 10 k.num.toNat).floor + 1) : Int) : Rat)) / Theta.ratPow 10 k.num.toNat)
+     else Theta.aroundNeg x k) := rfl
+
+theorem theta_aroundNeg_closed (x k : Rat) : Theta.aroundNeg x k =
+    (if (k.den == 1) = true then
+      Val.num ((((if x * (1 / Theta.ratPow 10 (-k.num).toNat) - ((x * (1 / Theta.ratPow 10 (-k.num).toNat)).floor : Int) < 1/2 then (x * (1 / Theta.ratPow 10 (-k.num).toNat)).floor
+        else if x * (1 / Theta.ratPow 10 (-k.num).toNat) - ((x * (1 / Theta.ratPow 10 (-k.num).toNat)).floor : Int) > 1/2 then (x * (1 / Theta.ratPow 10 (-k.num).toNat)).floor + 1
+        else (if (x * (1 / Theta.ratPow 10 (-k.num).toNat)).floor % 2 == 0 then (x * (1 / Theta.ratPow 10 (-k.num).toNat)).floor else (x * (1 / Theta.ratPow 10 (-k.num).toNat)).floor + 1) : Int) : Rat)) / (1 / Theta.ratPow 10 (-k.num).toNat))
      else .null) := rfl
 
-theorem pandas_around (args v) (h : docScalar "around" args = some v) : ThetaX.scalar "around" args = v := by
-  have hd : docScalar "around" args = num2 (fun x k =>
+theorem docAround_eq (args) : docScalar "around" args = num2 (fun x k =>
       if k.den = 1 ∧ 0 ≤ k.num then
         (nearest? (x * ipow 10 k.num.toNat)).map (fun r => .num ((r : Rat) / ipow 10 k.num.toNat))
+      else if k.den = 1 then
+        (nearest? (x * (1 / ipow 10 (-k.num).toNat))).map (fun r => .num ((r : Rat) / (1 / ipow 10 (-k.num).toNat)))
       else none) args := rfl
-  rw [hd] at h
+
+theorem pandas_around (args v) (h : docScalar "around" args = some v) : ThetaX.scalar "around" args = v := by
+  rw [docAround_eq] at h
   obtain ⟨x, k, rfl, hf⟩ := num2_some h
   show Theta.scalar "around" [.v (.num x), .v (.num k)] = v
   rw [theta_around_closed, ratPow_eq_ipow]
@@ -339,7 +349,21 @@ theorem pandas_around (args v) (h : docScalar "around" args = some v) : ThetaX.s
     · by_cases h2 : 1/2 < x * ipow 10 k.num.toNat - ((x * ipow 10 k.num.toNat).floor : Int)
       · simp [h1, h2] at hf ⊢; exact hf
       · simp [h1, h2] at hf
-  · rw [if_neg hc] at hf; simp at hf
+  · have hc' : ¬ ((k.den == 1 && decide (k.num ≥ 0)) = true) := by
+      intro hh; apply hc; simpa using hh
+    rw [if_neg hc', theta_aroundNeg_closed, ratPow_eq_ipow]
+    rw [if_neg hc] at hf
+    by_cases hd : k.den = 1
+    · have hd' : (k.den == 1) = true := by simp [hd]
+      rw [if_pos hd']
+      rw [if_pos hd] at hf
+      unfold nearest? at hf
+      by_cases h1 : x * (1 / ipow 10 (-k.num).toNat) - ((x * (1 / ipow 10 (-k.num).toNat)).floor : Int) < 1/2
+      · simp [h1] at hf ⊢; exact hf
+      · by_cases h2 : 1/2 < x * (1 / ipow 10 (-k.num).toNat) - ((x * (1 / ipow 10 (-k.num).toNat)).floor : Int)
+        · simp [h1, h2] at hf ⊢; exact hf
+        · simp [h1, h2] at hf
+    · rw [if_neg hd] at hf; simp at hf
 
 theorem theta_round_closed (x : Rat) : Theta.scalar "around" [.v (.num x), .v (.num 0)] =
       Val.num ((((if x * 1 - ((x * 1).floor : Int) < 1/2 then (x * 1).floor
@@ -367,6 +391,14 @@ theorem sql_around_closed (x k : Rat) : ThetaSql.scalar "around" [.v (.num x), .
         (((if (if x < 0 then -x else x) * Theta.ratPow 10 k.num.toNat - (((if x < 0 then -x else x) * Theta.ratPow 10 k.num.toNat).floor : Int) < 1/2
             then ((if x < 0 then -x else x) * Theta.ratPow 10 k.num.toNat).floor
             else ((if x < 0 then -x else x) * Theta.ratPow 10 k.num.toNat).floor + 1 : Int) : Rat)) / Theta.ratPow 10 k.num.toNat)
+     else ThetaSql.aroundNegSql x k) := rfl
+
+theorem sql_aroundNeg_closed (x k : Rat) : ThetaSql.aroundNegSql x k =
+    (if (k.den == 1) = true then
+      Val.num ((if x < 0 then -1 else 1) *
+        (((if (if x < 0 then -x else x) * (1 / Theta.ratPow 10 (-k.num).toNat) - (((if x < 0 then -x else x) * (1 / Theta.ratPow 10 (-k.num).toNat)).floor : Int) < 1/2
+            then ((if x < 0 then -x else x) * (1 / Theta.ratPow 10 (-k.num).toNat)).floor
+            else ((if x < 0 then -x else x) * (1 / Theta.ratPow 10 (-k.num).toNat)).floor + 1 : Int) : Rat)) / (1 / Theta.ratPow 10 (-k.num).toNat))
      else .null) := rfl
 
 theorem sql_round_closed (x : Rat) : ThetaSql.scalar "around" [.v (.num x), .v (.num 0)] =
